@@ -317,6 +317,15 @@ def _replace_sub_build(tree, consts):
             continue
         r = claripy.replace(e, old, new)
         runs.append((f"sub{k}", e, r, old, new))
+    # a variable-free `old`: a constant leaf that occurs in the expression
+    leaves = []
+    for l in e.leaf_asts():
+        if l.op == "BVV" and all(l is not x for x in leaves):
+            leaves.append(l)
+    for k, old in enumerate(leaves[:2]):
+        new = claripy.BVS("w", old.length, explicit_name=True)
+        r = claripy.replace(e, old, new)
+        runs.append((f"const{k}", e, r, old, new))
     return runs
 
 
